@@ -13,6 +13,9 @@
 (*    settings software uses), overlap (0: software waits for done; 1: it   *)
 (*    may pulse start again during a transfer, with the same length and     *)
 (*    word; 2: with any length of c.lens, which then stays programmed).     *)
+(*    mosichg (optional flag, 1: software may write another word of c.words *)
+(*    to the MOSI register while a transfer is in flight - the transfer     *)
+(*    keeps the word it was started with, the new one stays programmed).    *)
 (*                                                                          *)
 (* Environment.  Software changes cs/cs_mode only while the core is idle    *)
 (* and holds length/mosi during a transfer.  The slave is any device that   *)
@@ -33,15 +36,17 @@ SeqSet(q) == { q[i] : i \in 1..Len(q) }
 (* m.pclk, m.pcsn, m.pmosi, m.pmiso: pins of the previous cycle                         *)
 (* m.chk: <<>> or <<expected miso bits, len>> to be found in miso_word in this cycle    *)
 (* m.hl: the length currently programmed (held) while busy                              *)
+(* m.pmw: the word read back (miso_word) of the previous cycle                           *)
 Init0 == [x |-> <<>>, cfg |-> <<1, 0>>, cst |-> 0, idl |-> 0, first |-> TRUE, pclk |-> 0, pcsn |-> 1, pmosi |-> 0, pmiso |-> 0,
-          chk |-> <<>>, hl |-> 0, hw |-> 0]
+          chk |-> <<>>, hl |-> 0, hw |-> 0, pmw |-> 0]
 
 Inputs(c) ==
   LET M == {0, 1} IN
   IF m.x = <<>>
   THEN { <<0, 0, 0, q[1], q[2], b>> : q \in SeqSet(c.csopts), b \in M } \cup
        { <<1, l, w, m.cfg[1], m.cfg[2], b>> : l \in SeqSet(c.lens), w \in SeqSet(c.words), b \in M }
-  ELSE { <<0, m.hl, m.hw, m.cfg[1], m.cfg[2], b>> : b \in M } \cup
+  ELSE { <<0, m.hl, w, m.cfg[1], m.cfg[2], b>> :
+             w \in (IF Flag(c, "mosichg") = 1 THEN SeqSet(c.words) ELSE {m.hw}), b \in M } \cup
        (IF c.overlap = 1 THEN { <<1, m.hl, m.hw, m.cfg[1], m.cfg[2], b>> : b \in M }
         ELSE IF c.overlap = 2 THEN { <<1, l, m.hw, m.cfg[1], m.cfg[2], b>> : l \in SeqSet(c.lens), b \in M }
         ELSE {})
@@ -53,7 +58,7 @@ Consistent(c, iv, o) ==
      ELSE (miso # m.pmiso) => (fell \/ m.pcsn = 1)
 
 AllOk == [okpulse |-> TRUE, okcs |-> TRUE, okpu |-> TRUE, okmosi |-> TRUE, okstable |-> TRUE, okmiso |-> TRUE,
-          okdone |-> TRUE, okirq |-> TRUE, fin |-> TRUE]
+          okheld |-> TRUE, okdone |-> TRUE, okirq |-> TRUE, fin |-> TRUE]
 
 CInit(c) == m = Init0 /\ obs = AllOk
 
@@ -92,6 +97,9 @@ CStep(c, iv, o) ==
       okstable == (mosip # m.pmosi) => clk = 0
       \* the word read back holds the bits presented at the rising edges, MSB first
       okmiso == (m.chk # <<>>) => (misow % (2^(m.chk[2])) = m.chk[1])
+      \* and software finds it there whenever it reads after the end (status polling, interrupt latency): the
+      \* word changes only in the cycle it is delivered, not while the core idles or runs the next transfer
+      okheld == (m.chk = <<>>) => misow = m.pmw
       \* done is low from the accepted start to the end, high when idle; irq pulses once, at the end
       okdone == done = B(~busy /\ start = 0)
       okirq  == irq = 1 => busy
@@ -109,14 +117,19 @@ CStep(c, iv, o) ==
            pclk  |-> clk, pcsn |-> csn, pmosi |-> mosip, pmiso |-> miso,
            chk   |-> IF busy /\ irq = 1 THEN <<x.acc % (2^x.len), x.len>> ELSE <<>>,
            hl    |-> IF accept \/ (busy /\ start = 1) THEN len ELSE m.hl,
-           hw    |-> IF accept THEN word ELSE m.hw]
+           hw    |-> IF accept \/ busy THEN word ELSE m.hw,
+           pmw   |-> misow]
   /\ obs' = [okpulse |-> okpulse, okcs |-> okcs, okpu |-> okpu, okmosi |-> okmosi, okstable |-> okstable, okmiso |-> okmiso,
-             okdone |-> okdone, okirq |-> okirq, fin |-> (nx = <<>>)]
+             okheld |-> okheld, okdone |-> okdone, okirq |-> okirq, fin |-> (nx = <<>>)]
   /\ WitIf(busy /\ irq = 1 /\ x.len > 1, c, 0, "transfer completed")
   /\ WitIf(accept /\ m.idl = 0, c, 1, "back-to-back start")
   /\ WitIf(busy /\ start = 1, c, 2, "start during a transfer")
   /\ WitIf(m.chk # <<>> /\ m.chk[1] # 0 /\ m.chk[1] # 2^(m.chk[2]) - 1, c, 3, "mixed miso bits read back")
   /\ WitIf(busy /\ ~auto /\ irq = 1, c, 4, "transfer under manual chip select")
+  /\ WitIf(busy /\ start = 0 /\ word # x.w /\ x.r < x.len, c, 5,
+           "mosi register rewritten during a transfer")
+  /\ WitIf(busy /\ rose /\ x.r >= 1 /\ m.chk = <<>> /\ misow # 0 /\ misow # 2^c.dw - 1, c, 6,
+           "read-back word held during the next transfer")
 
 ExactPulseCount  == obs.okpulse
 ChipSelectFrames == obs.okcs
@@ -124,6 +137,7 @@ DeselectedAtPowerUp == obs.okpu
 MosiMsbFirst     == obs.okmosi
 MosiStableWhileHigh == obs.okstable
 MisoCaptured     == obs.okmiso
+MisoHeld         == obs.okheld
 DoneMeansIdle    == obs.okdone
 IrqOnlyAtEnd     == obs.okirq
 =============================================================================
